@@ -866,7 +866,7 @@ func (e *Exec) makeSlice(st *State, fr *Frame, in *ssa.MakeSlice) {
 }
 
 func (e *Exec) lenLimit() *Term {
-	v := new(big.Int).Lsh(big.NewInt(1), maxLenBits)
+	v := new(big.Int).Lsh(big.NewInt(1), allocLimitBits)
 	if e.IntMode {
 		return e.C.IntConst(v)
 	}
